@@ -46,10 +46,10 @@ _p('C02', 'proof',
    ['B symmetric positive definite', 'rho(I - BA) < 1', 'power-of-two scaling'],
    'DESIGN.md sections 6 (C02), 8.4')
 
-_p('C03', 'proof',
-   'Provenance contracts on the setup call chain: galerkin == product(R, product(A,P)); scaled_galerkin == scale of it; aggregation::coarse_operator uses 1/over_interp; level::step_down keeps and stores exactly the transfer operators chosen and returns coarse_operator(A,P,R); level::rebuild recomputes level operator, smoother, coarse solver from the new matrix and the coarse matrix from the new matrix and the STORED operators; amg::rebuild refuses without allow_rebuild / on shape mismatch and rebuilds every level once, in order, each from the previous level\'s result. The kernels the chain is built from (product through both SpGEMM algorithms, transpose, scale, sort_rows) are the C08 units, listed here as supporting units: bounded unless marked proved.',
+_p('C03', 'other',
+   'MIXED: call-level clauses proved without bound, kernel-level clauses bounded (see units_proved_unbounded / units_bounded_standin and the two obligation counts in the evidence). Provenance contracts on the setup call chain: galerkin == product(R, product(A,P)); scaled_galerkin == scale of it; aggregation::coarse_operator uses 1/over_interp; level::step_down keeps and stores exactly the transfer operators chosen and returns coarse_operator(A,P,R); level::rebuild recomputes level operator, smoother, coarse solver from the new matrix and the coarse matrix from the new matrix and the STORED operators; amg::rebuild refuses without allow_rebuild / on shape mismatch and rebuilds every level once, in order, each from the previous level\'s result. The kernels the chain is built from (product through both SpGEMM algorithms, transpose, scale, sort_rows) are the C08 units, listed here as supporting units: bounded unless marked proved.',
    'The call chain is proved (no bound); that product/transpose/scale/sort_rows equal their dense definitions is decided by the C08 kernel units that also serve this property (bounded stand-ins, listed separately in the evidence: units_bounded_standin / obligations_in_bounded_units). Not decided: strict decrease of level sizes (data dependent), Ruge-Stuben R, do_init last-level decision (unit not built), bitwise equality of rebuilt and fresh hierarchy.',
-   TECH_PROOF,
+   TECH_BOUNDED,
    ['coarse = R*A*P (re-scaled for plain aggregation) as a term over product/scale', 'rebuild reuses stored P,R and the new A', 'rebuild order and chaining'],
    ['level sizes strictly decrease', 'last level direct/smoother decision in do_init', 'Ruge-Stuben'],
    'DESIGN.md sections 6 (C03), 8.4')
@@ -70,10 +70,10 @@ _p('C05', 'proof',
    ['CG / GMRES optimality', 'agreement with dense reference', 'finite termination'],
    'DESIGN.md section 6 (C05)')
 
-_p('C06', 'proof',
-   'Call-level contracts (loop-free, proved): apply_pre/apply_post/apply of damped Jacobi, SPAI-0, ILU(0)/ILU(k)/ILUT and Gauss-Seidel are exactly residual(rhs,A,x,tmp) from the incoming x followed by the documented M^-1 application and update. Kernel level (bounded units, listed in the evidence): Gauss-Seidel serial sweep, ILU triangular solve, SPAI-0 / ILU(0) constructors.',
+_p('C06', 'other',
+   'MIXED: call-level clauses proved without bound, kernel-level clauses bounded (see units_proved_unbounded / units_bounded_standin and the two obligation counts in the evidence). Call-level contracts (loop-free, proved): apply_pre/apply_post/apply of damped Jacobi, SPAI-0, ILU(0)/ILU(k)/ILUT and Gauss-Seidel are exactly residual(rhs,A,x,tmp) from the incoming x followed by the documented M^-1 application and update. Kernel level (bounded units, listed in the evidence): Gauss-Seidel serial sweep, ILU triangular solve, SPAI-0 / ILU(0) constructors.',
    'Not decided: (LU)_ij = a_ij on the pattern / exactness on tridiagonal matrices (needs exact division), ILU(k)/ILUP/ILUT fill bookkeeping, SPAI-1, Chebyshev coefficients.',
-   TECH_PROOF,
+   TECH_BOUNDED,
    ['each sweep is x + M^-1 (f - A x) as a call sequence (proved)', 'kernels: see bounded units'],
    ['ILU factor exactness', 'SPAI-1', 'Chebyshev polynomial'],
    'DESIGN.md sections 6 (C06), 8.4')
@@ -142,10 +142,10 @@ _p('C17', 'other',
    ['Eigen / uBlas / crs_builder', 'reorder and scaling adapters'],
    'DESIGN.md section 6 (C17)')
 
-_p('C18', 'proof',
-   'Call-sequence contracts (loop-free, proved for all inputs): schur_pressure_correction::apply realises the block elimination of type 1 and the block-triangular solve of type 2 step by step with the prescribed operands, its matrix-free spmv is beta y + alpha Kpp\' x - alpha Kpu (U^-1|M) Kup x for every adjust_p / approx_schur setting; cpr::apply is x = S f + Scatter P Fpp (f - A S f); preonly is one preconditioner application; work vectors enter undefined.',
+_p('C18', 'other',
+   'MIXED: call-level clauses proved without bound, kernel-level clauses bounded (see units_proved_unbounded / units_bounded_standin and the two obligation counts in the evidence). Call-sequence contracts (loop-free, proved for all inputs): schur_pressure_correction::apply realises the block elimination of type 1 and the block-triangular solve of type 2 step by step with the prescribed operands, its matrix-free spmv is beta y + alpha Kpp\' x - alpha Kpu (U^-1|M) Kup x for every adjust_p / approx_schur setting; cpr::apply is x = S f + Scatter P Fpp (f - A S f); preonly is one preconditioner application; work vectors enter undefined.',
    'That the proved sequence is the exact inverse given exact inner solves is the textbook block-LU identity (not machine-checked). Not decided: sub-block extraction (unless a bounded unit is listed), CPR pressure weighting (floating-point block inverse), deflated solver.',
-   TECH_PROOF,
+   TECH_BOUNDED,
    ['Schur type 1 / type 2 call sequences', 'Schur complement product formula', 'CPR two-stage formula'],
    ['exact-inverse identity', 'CPR weighting', 'deflated solver'],
    'DESIGN.md sections 6 (C18), 8.4')
